@@ -5,6 +5,7 @@ use crate::gen::corpus::*;
 use crate::io::{marker_of, Schedule, Scripted, ScriptedWriter, WriteFault};
 use crate::oracle::cmp::full_diff;
 use crate::refmodel::framing::{encode_text, ENCS};
+use rosu_map::section::hit_objects::HitObjectKind;
 use rosu_map::{Beatmap, DecodeBeatmap};
 use serde_json::{json, Value};
 use std::io::{BufReader, ErrorKind};
@@ -253,7 +254,30 @@ pub fn run(ctx: &mut Ctx) {
         let m: Beatmap = rosu_map::from_str(&text).unwrap();
         let mut out = Vec::new();
         m.clone().encode(&mut out).unwrap();
-        maps.push((format!("generated map with every optional line (mode {mode})"), m, out));
+        maps.push((format!("generated map with every optional line (mode {mode})"), m.clone(), out));
+        if mode == 0 || mode == 3 {
+            // the same map changed through its public fields into shapes no file produces: sliders with fewer
+            // node-sample lists than nodes, objects without samples (the encoder's fallback branches)
+            let mut a = m.clone();
+            for h in a.hit_objects.iter_mut() {
+                if let HitObjectKind::Slider(sl) = &mut h.kind {
+                    sl.node_samples.truncate(1);
+                }
+            }
+            let mut out = Vec::new();
+            a.clone().encode(&mut out).unwrap();
+            maps.push((format!("generated map, sliders with a single node-sample list (mode {mode})"), a, out));
+            let mut b = m.clone();
+            for h in b.hit_objects.iter_mut() {
+                h.samples.clear();
+                if let HitObjectKind::Slider(sl) = &mut h.kind {
+                    sl.node_samples.clear();
+                }
+            }
+            let mut out = Vec::new();
+            b.clone().encode(&mut out).unwrap();
+            maps.push((format!("generated map, objects without samples (mode {mode})"), b, out));
+        }
     }
     let mut wplan: Vec<(usize, WFault)> = vec![];
     for (mi, (_, _, clean)) in maps.iter().enumerate() {
